@@ -86,10 +86,16 @@ def run_primed(t, kind, n, witness, primed, ops, y, z):
         w.walk(nd, nd.root)
         repr(nd)
     for op in ops:
+        if op and op[0] == "fault":
+            u.arm(op[2], op[3])
+            op = op[1]
+            t.c["faulted_ops_in_histories"] += 1
         try:
             u.apply(op)
         except Exception:  # noqa
             t.c["refused_ops"] += 1
+        u.raise_at = frozenset()
+        u.persist = None
     nodes = [u.nodes[l] for l in u.labels]
     idm = tree.IdMap(nodes)
     yi, zi = u.labels.index(y), u.labels.index(z)
@@ -119,7 +125,13 @@ def job_primed(kind, n, states):
     for key, state, witness in states:
         t.c["states"] += 1
         for primed in core.powerset(labels):
-            for op in ops:
+            if n >= 4 and len(primed) not in (0, 1, n):
+                continue  # at 4+ nodes: nothing, one node or every node asked before the mutation
+            steps = [op for op in ops]
+            if primed and len(primed) in (1, n) and n <= 3:
+                from . import c04
+                steps += [("fault", op, (i,), None) for op in ops if op[0] == "setp" for i in range(c04.hook_count(kind, n, witness, op))]
+            for op in steps:
                 for y in labels:
                     for z in labels:
                         core.guard(t, "C15", {"engine": "E2", "module": MOD, "part": "primed", "kind": kind, "n": n,
@@ -198,7 +210,7 @@ def run(tier):
     hist = []
     try:
         pool.run([(MOD, "job_deep", {})], into=t)
-        for kind, n in (("mixin", 3), ("light", 3), ("node", 4)) + ((("mixin", 4), ("light", 4)) if tier == "thorough" else ()):
+        for kind, n in (("mixin", 3), ("light", 3), ("node", 4), ("symmix", 4)) + ((("mixin", 4), ("light", 4), ("symmix", 5)) if tier == "thorough" else ()):
             states = forest.discover(pool, kind, n, {"read": False, "nonnode": False, "extras": False}, False)
             before = t.c["primed_histories"]
             pool.run([(MOD, "job_primed", {"kind": kind, "n": n, "states": s_}) for s_ in core.shard(states, core.NPROC * 4)], into=t)
